@@ -90,10 +90,31 @@ func c19Outage(w *W) {
 	for time.Now().Nanosecond() > 200_000_000 {
 		time.Sleep(5 * time.Millisecond)
 	}
-	ap := &log.RollingFileAppender{AppenderBase: log.AppenderBase{Name: "roll"}, Layout: &log.TextLayout{}, FileDir: dir, FileName: fname, Rotation: log.TimeRotation{Interval: interval}, MaxAge: 24}
-	if err := ap.Start(); err != nil {
-		w.Violate("C19:start-failed", err.Error(), cs)
-		return
+	// via=asyncroot: the same outage, but the writes go through a named handle bound to a Refresh-built root logger of kind
+	// RollingFile in asynchronous mode (Block policy, smallest queue) and arrive in bursts that keep the queue full, so a
+	// rotation fails while the worker is the only consumer of a full queue. Judged there: no panic, no blocked call,
+	// Destroy returns, every accepted write is in the directory exactly once (boundary placement is not judged: the
+	// file write happens later than the call).
+	async := w.Arg("via", "") == "asyncroot"
+	cs["via"] = w.Arg("via", "appender")
+	var ap *log.RollingFileAppender
+	var handle *log.LoggerWrapper
+	if async {
+		handle = log.GetLogger("root")
+		log.RegisterTimeRotation("c19sec", log.TimeRotation{Interval: interval})
+		cfg := map[string]string{"appender.u.type": "Discard", "logger.root.type": "RollingFile", "logger.root.async": "true", "logger.root.bufferFullPolicy": "Block", "logger.root.bufferSize": "100",
+			"logger.root.fileDir": dir, "logger.root.fileName": fname, "logger.root.rotation": "c19sec", "logger.root.maxAge": "24"}
+		if err := log.Refresh(cfg); err != nil {
+			w.Violate("C19:start-failed", err.Error(), cs)
+			log.Destroy()
+			return
+		}
+	} else {
+		ap = &log.RollingFileAppender{AppenderBase: log.AppenderBase{Name: "roll"}, Layout: &log.TextLayout{}, FileDir: dir, FileName: fname, Rotation: log.TimeRotation{Interval: interval}, MaxAge: 24}
+		if err := ap.Start(); err != nil {
+			w.Violate("C19:start-failed", err.Error(), cs)
+			return
+		}
 	}
 	b0 := time.Now().Truncate(interval) // boundary #0 = start of the current interval; #k = b0 + k s
 	at := func(k, offMs int) time.Time {
@@ -167,7 +188,13 @@ func c19Outage(w *W) {
 					buf = append(buf, byte('a'+b%26))
 				}
 				rc := c13rec{id: id, snap: c12snap{len(buf), crc32.ChecksumIEEE(buf)}, writer: g, start: time.Now()}
-				pv, st := catch(func() { ap.Write(buf) })
+				pv, st := catch(func() {
+					if async {
+						_, _ = handle.Write(buf)
+					} else {
+						ap.Write(buf)
+					}
+				})
 				rc.end = time.Now()
 				if pv != nil {
 					w.Violate("C19:write-panic", fmt.Sprintf("[%s] Write panicked: %v\n%s", pl.Name, pv, trunc(st, 1000)), cs)
@@ -176,14 +203,51 @@ func c19Outage(w *W) {
 				mu.Lock()
 				recs = append(recs, rc)
 				mu.Unlock()
+				if async {
+					if i%1500 == 0 { // bursts of 1500 back-to-back writes keep the 100-slot queue full
+						time.Sleep(4 * time.Millisecond)
+					}
+					continue
+				}
 				time.Sleep(time.Duration(500+(i%7)*300) * time.Microsecond)
 			}
 		}(g)
 	}
-	wg.Wait()
-	<-ctlDone
-	if pv, _ := catch(ap.Stop); pv != nil {
-		w.Violate("C19:stop-panic", fmt.Sprintf("Stop panicked: %v", pv), cs)
+	if async {
+		joined := make(chan struct{})
+		go func() { wg.Wait(); close(joined) }()
+		select {
+		case <-joined:
+		case <-time.After(time.Until(stopAt) + 30*time.Second):
+			dump := goroutineDump()
+			if blocked, gr := blockedInLibrary(dump, "c19Outage"); blocked {
+				w.Violate("C19:log-call-blocked:asyncroot", fmt.Sprintf("[%s] a Write through the handle of the asynchronous rolling root logger is parked inside the library 30 s after the workload should have ended:\n%s", pl.Name, trunc(gr, 1800)), cs)
+			} else {
+				w.Inconclusive("[" + pl.Name + "] async writers did not finish within the watchdog")
+			}
+			w.flush()
+			os.Exit(0)
+		}
+		<-ctlDone
+		ok, pv, dump := callWithWatchdog(60*time.Second, log.Destroy)
+		if !ok {
+			if blocked, gr := blockedInLibrary(dump, "watchdogMarker"); blocked {
+				w.Violate("C19:destroy-blocked:asyncroot", fmt.Sprintf("[%s] Destroy is parked inside the library:\n%s", pl.Name, trunc(gr, 1500)), cs)
+			} else {
+				w.Inconclusive("[" + pl.Name + "] Destroy did not return within the watchdog")
+			}
+			w.flush()
+			os.Exit(0)
+		}
+		if pv != nil {
+			w.Violate("C19:stop-panic", fmt.Sprintf("Destroy panicked: %v", pv), cs)
+		}
+	} else {
+		wg.Wait()
+		<-ctlDone
+		if pv, _ := catch(ap.Stop); pv != nil {
+			w.Violate("C19:stop-panic", fmt.Sprintf("Stop panicked: %v", pv), cs)
+		}
 	}
 	if e, _ := ctlErr.Load().(string); e != "" {
 		// the fault injector itself failed: nothing can be concluded from this run
@@ -258,7 +322,7 @@ func c19Outage(w *W) {
 	// creation must be attempted again: every boundary that lies outside all outages (with 30 ms
 	// margin) and after the appender's start must have produced a file whose name-time is in that interval
 	retried := 0
-	if !bad {
+	if !bad && !async {
 		for k := 1; k <= pl.Boundaries; k++ {
 			bt := at(k, 0)
 			clear := true
@@ -559,6 +623,16 @@ func init() {
 					s.TimeoutS = 120
 					specs = append(specs, s)
 				}
+			}
+			// the outage seen through an asynchronous rolling root logger whose queue is kept full
+			for i, plName := range []string{"covers-boundary-1", "covers-boundaries-1-2", "two-outages", "emfile-covers-boundary-1"} {
+				if d.Quick() && i >= 2 {
+					break
+				}
+				s := d.NewSpec("outage", "out-asyncroot-"+plName, len(specs), 256)
+				s.Args["placement"], s.Args["writers"], s.Args["via"] = plName, "2", "asyncroot"
+				s.TimeoutS = 150
+				specs = append(specs, s)
 			}
 			if !d.Quick() {
 				specs = d.Replicate(specs, 3)
